@@ -7,7 +7,7 @@ ID = "C01"
 LEVEL = "exploration"
 N = {"quick": 600, "thorough": 5000}
 RULE = ("cases = (two contracts over a wiring in {independent, cascade either order, shared inputs, feedback, mixed} with structured "
-        "or wild contents sharing a witness, plus cascades whose consumer assumption cancels to a variable-free `0 <= -delta`, vars_to_keep subset of outputs, simplify flag, tactics_order, call order); oracle: "
+        "or wild contents sharing a witness, plus cascades whose consumer assumption cancels to a variable-free `0 <= -delta`, vars_to_keep subset of outputs, optionally a third contract composed with the result (a chain), simplify flag, tactics_order, call order); oracle: "
         "A_C and (A1+ => G1) and (A2+ => G2) must imply every term of A1, A2 and G_C (exact, box 1000, tolerance 1e-4(1+|c|), A+ = "
         "assumptions enlarged by 1e-7); non-trivial = compose returned, at least one tactic transformed a term (statistics entry > 0), "
         "and the hypotheses are satisfiable in the box; distinct = SHA-1 of the case")
@@ -34,16 +34,29 @@ def _cancelling_pair(draw):
 @st.composite
 def compose_case_s(draw, kinds=gens.WIRINGS_W):
     p = draw(_cancelling_pair()) if kinds is gens.WIRINGS_W and draw(st.integers(0, 15)) == 0 else draw(gens.contract_pair_s(kinds))
+    chain = None
+    if "witness" in p and draw(st.integers(0, 5)) == 0:
+        # a third contract that consumes outputs of the composition: the result of the first step is an operand of the second
+        outs_all = [v for v in p["c1"]["o"] + p["c2"]["o"] if v not in p["c1"]["i"] + p["c2"]["i"]] or (p["c1"]["o"] + p["c2"]["o"])
+        ins3 = [v for v in outs_all if draw(st.booleans())][:2] or outs_all[:1]
+        w3 = dict(p["witness"], zf=float(draw(st.integers(-3, 3))))
+        chain = draw(gens.wild_contract_s(ins3, ["zf"], w3, na=(0, 2), ng=(1, 2)))
     scheme = draw(st.sampled_from(["plain", "plain", "plain", "plain", "symbols", "prefix"]))
     if scheme != "plain":
         # unusual variable names: look-alikes of numbers / well-known symbols, prefixes of one another
         m = gens.WIRING_SCHEMES[scheme]
         p = dict(p, c1=gens.rename_contract(p["c1"], m), c2=gens.rename_contract(p["c2"], m))
+        chain = gens.rename_contract(chain, m) if chain else None
     outs = p["c1"]["o"] + p["c2"]["o"]
     keep = [v for v in outs if draw(st.integers(0, 5)) == 0]
-    return {"c1": p["c1"], "c2": p["c2"], "wiring": p["wiring"], "content": p["content"], "keep": keep,
+    if chain:
+        keep = list(dict.fromkeys(keep + [v for v in chain["i"] if v in outs]))
+    case = {"c1": p["c1"], "c2": p["c2"], "wiring": p["wiring"], "content": p["content"], "keep": keep,
             "simplify": draw(st.sampled_from([True, True, False])), "order": draw(gens.order_s()),
             "swap": draw(st.sampled_from([False, False, True]))}
+    if chain:
+        case["chain"] = chain
+    return case
 
 
 def strategy(tier):
@@ -84,18 +97,31 @@ def run_case(case):
         labels.append("refused:" + type(res).__name__)
         return {"viol": None, "nontrivial": False, "labels": labels, "outcome": "refused"}
     c, stats = res
-    d1, d2, d = env.c_data(c1), env.c_data(c2), env.c_data(c)
     used = used_tactics(stats)
     labels += ["tactic-%d" % u for u in used] or ["no-tactic"]
+    viol, feasible = judge_abstraction(c1, c2, c, used, "")
+    if viol is None and case.get("chain"):
+        # second step: the composition just obtained (whatever its internal shape) composed with a third contract
+        s3, c3 = env.call("construct", env.C, case["chain"])
+        if s3 == "ok":
+            st2, res2 = env.call("compose_tactics", c.compose_tactics, c3, [], case["simplify"], None if case["order"] is None else list(case["order"]))
+            labels.append("chain:" + ("returned" if st2 == "ok" else "refused"))
+            if st2 == "ok":
+                viol, _ = judge_abstraction(c, c3, res2[0], used_tactics(res2[1]), " (second step of a chain)")
+    nontrivial = bool(used) and feasible
+    return {"viol": viol, "nontrivial": nontrivial, "labels": labels, "outcome": "returned"}
+
+
+def judge_abstraction(c1, c2, c, used, where):
+    d1, d2, d = env.c_data(c1), env.c_data(c2), env.c_data(c)
     names = gens.contract_names(d1, d2, d)
     hyps = [exact.conj(d["a"]), exact.implies(d1["a"], d1["g"]), exact.implies(d2["a"], d2["g"])]
     viol = None
     for part, concl in (("A1", d1["a"]), ("A2", d2["a"]), ("G", d["g"])):
         bad = exact.find_violation(hyps, concl, names)
         if bad:
-            viol = {"what": "composition is not an abstraction: %s term %s can be violated" % (part, bad["term"]),
+            viol = {"what": "composition is not an abstraction%s: %s term %s can be violated" % (where, part, bad["term"]),
                     "sig": {"kind": "unsound-composition", "part": part, "tactics": used},
                     "detail": dict(bad, composition=d, first=d1, second=d2)}
             break
-    nontrivial = bool(used) and exact.feasible(hyps, names, exact.BOX)
-    return {"viol": viol, "nontrivial": nontrivial, "labels": labels, "outcome": "returned"}
+    return viol, exact.feasible(hyps, names, exact.BOX)
